@@ -337,3 +337,54 @@ def c04_3(ctx):
     yield Case('two-refresh-jobs', _c04_3_refresh_case(ctx.pick(2, 3)),
                needed=['two-jobs-pending', 'raced', 'interleaved'],
                shard_depth=8, procs=14, max_paths=1000000)
+
+
+# ---------------------------------------------------------------------------
+# C04.G  the join invariants over generated shapes
+# ---------------------------------------------------------------------------
+def _c04_g_case(n, kinds, joins, preemptions):
+    def case():
+        key, text = C01.gen_shape(n, kinds, joins)
+        note('shape', key)
+        if 'join' not in text:
+            raise symx.PathAbort()
+        inner = _c04_e_case('gen%d' % n, text, preemptions)
+        inner()
+        reach('shape-ran')
+    return case
+
+
+@obligation(
+    'C04.G', engine='symx+world(minidb)',
+    functions=['mistral.engine.tasks:Task.defer',
+               'mistral.engine.task_handler:_refresh_task_state',
+               'mistral.engine.task_handler:_check_affected_tasks',
+               'mistral.workflow.direct_workflow:'
+               'DirectWorkflowController._get_join_logical_state',
+               'mistral.workflow.direct_workflow:'
+               'DirectWorkflowController._configure_if_join'],
+    bounds={'quick': 'every direct workflow over 3 tasks that contains a join '
+                     '(routes none / on-success / on-error / on-complete per '
+                     'pair, join all / one / 2); outcomes symbolic; <= 1 '
+                     'out-of-order delivery',
+            'thorough': 'every such workflow over 4 tasks with routes none / '
+                        'on-success / on-error and joins all / one'},
+    stubs=['minidb', 'QueueRPC', 'FakeScheduler', 'FakeExecutor',
+           'post-commit queue inline'],
+    outside='cycles, guards, more than 4 tasks',
+    timeout=(400, 3000))
+def c04_g(ctx):
+    """in every generated shape with a join, after every delivery: a
+    started join has the required number of completed-and-routed inbound
+    tasks, its action is dispatched at most once, no task is created twice"""
+    boot()
+    if ctx.quick:
+        yield Case('3-tasks', _c04_g_case(3, ['none', 'S', 'E', 'C'],
+                                          ['all', 'one', 2], 1),
+                   needed=['shape-ran', 'join-started', 'quiescent'],
+                   max_paths=2000000, shard_depth=7, procs=14)
+    else:
+        yield Case('4-tasks', _c04_g_case(4, ['none', 'S', 'E'],
+                                          ['all', 'one'], 1),
+                   needed=['shape-ran', 'join-started', 'quiescent'],
+                   max_paths=5000000, shard_depth=8, procs=14)
